@@ -1,4 +1,5 @@
 import BtcwVerif.Lemmas.KMap
+import BtcwVerif.Lemmas.Balance
 /-!
 # C12 — a leased output stays out of reach until released or expired
 
@@ -317,6 +318,31 @@ theorem C12_once_not_twice (s : Store) (now : Nat) (bal : Int) :
     rcases hor with hl | hs
     · simp [hl]
     · by_cases hl : isLocked s op now = true <;> simp [hl, hs]
+
+/-- `Balance` under `Inv`, read per lease: the value returned is the sum over the credits that `countsMined` /
+`countsUnmined` admit, and both predicates reject every output leased at that instant — a leased output contributes
+exactly nothing, whether it is confirmed, immature, or also spent by an unconfirmed transaction. (`Inv` is the
+representation invariant of C01; its preservation by `insertMinedTx`/`rollback` is run-time checked, see C01.) -/
+theorem C12_excluded_balance_partial (s : Store) (hinv : Inv s) (now : Nat) (mat m sy : Int) :
+    (∃ v, balance s now mat m sy = .ok v ∧ v = storeTruth s now mat m sy) ∧
+    (∀ c : CInfo, isLocked s c.key.outPoint now = true → countsMined s now m sy mat c = false) ∧
+    (∀ e : OutPoint × UCredit, isLocked s e.1 now = true → countsUnmined s now e = false) := by
+  refine ⟨?_, ?_, ?_⟩
+  · -- the closed form is C01_balance_partial; restated here through the lemmas it is built from
+    have hidx : ∀ e ∈ s.unspent, (creditInfo s ⟨e.1.hash, e.2, e.1.index⟩).isSome := by
+      intro e he
+      apply hinv.indexed
+      unfold unspentInfos
+      exact List.mem_map.mpr ⟨e, he, rfl⟩
+    cases hb : balance s now mat m sy with
+    | ok v => exact ⟨v, rfl, by
+        have := balance_eq_storeTruth s hinv now mat m sy
+        rw [hb] at this; cases this; rfl⟩
+    | error e =>
+      have := balance_eq_storeTruth s hinv now mat m sy
+      rw [hb] at this; cases this
+  · intro c hl; simp [countsMined, hl]
+  · intro e hl; simp [countsUnmined, hl]
 
 /-! ### the stored expiry is truncated to seconds (DESIGN §7-F8) -/
 
